@@ -15,6 +15,48 @@ def write_cfg(name, **kw):
     return name
 
 
+def validate_trace(trace, trace_cfg, timeout=6000):
+    """FaceLifeTrace over a recorded trace.  Long traces are cut at history boundaries (Reset events) into up to eight
+    parts that are validated side by side (the purity oracle then compares within a part).  Returns
+    (violation name or None, index of the rejected event in the whole trace, events accepted, representative TlcResult)."""
+    lines = open(trace).read().splitlines()
+    resets = [i for i, l in enumerate(lines) if '"Reset"' in l]
+    if len(lines) < int(os.environ.get("VERIF_FL_SPLIT", "400000")) or len(resets) < 16:
+        rv = vlib.tlc("FaceLifeTrace.tla", trace_cfg, workers=1, env={"TRACE": trace}, timeout=timeout, coverage=False, heap="16g")
+        return rv.violation, min(max(rv.states - 1, 0), len(lines) - 1), rv.states - 1, rv
+    import concurrent.futures
+    nparts = 8
+    cuts = [resets[(len(resets) * k) // nparts] for k in range(nparts)] + [len(lines)]
+    cuts[0] = 0
+    parts = []
+    for k in range(nparts):
+        a, b = cuts[k], cuts[k + 1]
+        if a >= b:
+            continue
+        pth = "%s.part%d" % (trace, k)
+        open(pth, "w").write("\n".join(lines[a:b]) + "\n")
+        parts.append((a, b, pth))
+    def one(part):
+        a, b, pth = part
+        return part, vlib.tlc("FaceLifeTrace.tla", trace_cfg, workers=1, env={"TRACE": pth}, timeout=timeout, coverage=False, heap="7g")
+    with concurrent.futures.ThreadPoolExecutor(max_workers=nparts) as ex:
+        res = list(ex.map(one, parts))
+    accepted, first = 0, None
+    for (a, b, pth), rv in res:
+        accepted += max(rv.states - 1, 0)
+        if rv.violation and first is None:
+            first = (rv.violation, a + min(max(rv.states - 1, 0), b - a - 1), rv)
+        try:
+            os.remove(pth)
+        except OSError:
+            pass
+    if first:
+        return first[0], first[1], accepted, first[2]
+    rv = res[0][1]
+    rv.states = accepted + 1
+    return None, len(lines) - 1, accepted, rv
+
+
 def run_histories(ck, tmp, tag, cfgname, trace_cfg, exe):
     """TLC generates histories with cfgname; harness executes; TLC validates with trace_cfg. Returns (ok, info)."""
     hist = os.path.join(tmp, tag + ".hist.ndjson")
@@ -42,10 +84,10 @@ def run_histories(ck, tmp, tag, cfgname, trace_cfg, exe):
         return False, None
     ck.traces += h.summary["extra"]["histories"]
     ck.extra.setdefault("impl", {})[tag] = h.summary["extra"]
-    rv = vlib.tlc("FaceLifeTrace.tla", trace_cfg, workers=1, env={"TRACE": trace}, timeout=6000, coverage=False, heap="16g")
-    if rv.violation:
+    viol, k, accepted, rv = validate_trace(trace, trace_cfg)
+    if viol:
+        rv.violation = viol
         lines = open(trace).read().splitlines()
-        k = min(rv.states - 1, len(lines) - 1)
         start = k
         while start > 0 and '"Reset"' not in lines[start]:
             start -= 1
